@@ -8,7 +8,7 @@ import pandas as pd
 
 from .. import lib, record, runner, tlc
 
-NUMVAL = {1: 1, 2: 2, 3: 0, 4: 1e16, 5: 1.5, 6: -0.0, 7: -3}
+NUMVAL = {1: 1, 2: 2, 3: 0, 4: 1e16, 5: 1.5, 6: -0.0, 7: -3, 8: 123456.5}
 STRVAL = {31: 'a', 32: '7'}
 
 
@@ -154,13 +154,17 @@ def build_column(kind, col, variant):
         return pd.Series([pd.NA if v == 0 else (v == 1) for v in seq], dtype='boolean')
     if variant == 'int' and 0 not in seq:
         return pd.Series(seq, dtype='int64')
+    if variant == 'bigint' and 0 not in seq:
+        return pd.Series([2 ** 60 + v for v in seq], dtype='int64')     # 64-bit identifiers beyond 2^53
+    if variant == 'bigInt64':
+        return pd.Series([pd.NA if v == 0 else 2 ** 60 + v for v in seq], dtype='Int64')
     if variant == 'category':
         cats = sorted({'v%d' % v for v in seq if v != 0}) + ['unused-category']
         return pd.Series(pd.Categorical([None if v == 0 else 'v%d' % v for v in seq], categories=cats))
     return pd.Series([None if v == 0 else 'v%d' % v for v in seq], dtype=object)
 
 
-VARIANTS = ['object', 'float', 'Int64', 'str', 'mixedobj', 'boolean', 'int', 'category']
+VARIANTS = ['object', 'float', 'Int64', 'str', 'mixedobj', 'boolean', 'int', 'category', 'bigint', 'bigInt64']
 
 
 def run_prof(item):
@@ -173,6 +177,9 @@ def run_prof(item):
     df = pd.DataFrame({'c': col, 'k': pd.Series(range(n), dtype='int64'), 'u': pd.Series(['x'] * n, dtype=object)})
     if tid % 3 == 1:
         df = df[['u', 'k', 'c']]
+    if tid % 5 in (2, 3) and n:
+        # repeated / non-default index labels must not matter
+        df.index = [7] * n if tid % 5 == 2 else ['g%d' % (j % 2) for j in range(n)]
     attrs_arg = [None, ['c'], ['k', 'c'], ['c', 'k']][tid % 4]
     attrs = list(df.columns) if attrs_arg is None else attrs_arg
     snap = record.snapshot(df)
